@@ -1,1 +1,73 @@
-From LQ Require Import Base.Str Kernels.LRU Kernels.CacheLoader Proofs.LRU_proofs Proofs.CacheLoader_proofs.
+(** C14 — Caching loaders are transparent.
+    Only property theorems live here, each closed by [exact] and followed by
+    [Print Assumptions].  Model: Kernels/LRU.v, Kernels/CacheLoader.v. *)
+From LQ Require Import Base.Str Kernels.LRU Kernels.CacheLoader
+  Proofs.LRU_proofs Proofs.CacheLoader_proofs.
+
+(** The cache never exceeds its capacity and never holds two entries for one
+    key, in every state reachable by any history. *)
+Theorem c14_cache_le_capacity_nodup : forall c ops,
+  wf_cfg c -> Forall (wf_op c) ops ->
+  lru_len (cache (final c (init c) ops)) <= c_cap c
+  /\ NoDup (lru_keys (cache (final c (init c) ops))).
+Proof. exact cache_le_capacity. Qed.
+Print Assumptions c14_cache_le_capacity_nodup.
+
+(** The OrderedDict-based cache refines the recency-list LRU specification:
+    lookups move the key to the front ... *)
+Theorem c14_lru_get_refines : forall (c : lru tmpl) k,
+  lru_inv c ->
+  match lru_get c k with
+  | Some (v, c') => spec_get (lru_abs c) k = Some (v, lru_abs c')
+  | None => spec_get (lru_abs c) k = None
+  end.
+Proof. exact lru_get_refines. Qed.
+Print Assumptions c14_lru_get_refines.
+
+(** ... insertions keep the [cap] most recently used entries ... *)
+Theorem c14_lru_set_refines : forall (c : lru tmpl) k v,
+  lru_inv c -> lru_abs (lru_set c k v) = spec_set (cap c) (lru_abs c) k v.
+Proof. exact lru_set_refines. Qed.
+Print Assumptions c14_lru_set_refines.
+
+(** ... and what a full cache evicts is exactly its least recently used entry. *)
+Theorem c14_evicts_least_recently_used : forall (c : lru tmpl) k v,
+  lru_inv c -> assoc k (od c) = None -> length (od c) = cap c ->
+  lru_abs (lru_set c k v) = (k, v) :: removelast (lru_abs c).
+Proof. exact lru_evicts_least_recent. Qed.
+Print Assumptions c14_evicts_least_recently_used.
+
+(** Transparency, for every history, configuration and call: a load-and-render
+    step answers with what the non-caching loader gives at that moment (or
+    fails while the source is failing); only when auto-reload is off or the
+    loader has no freshness information may it instead answer with what an
+    earlier load for the same cache key obtained, that entry not having been
+    evicted since.  *)
+Theorem c14_caching_transparent : forall c ops name ns g a,
+  wf_cfg c -> Forall (wf_op c) ops -> wf_call c ns ->
+  let s := final c (init c) ops in
+  let ob := fst (step c s (Load name ns g a)) in
+  ob = truth c s name ns g
+  \/ (fail_next s = true /\ ob = NotFound)
+  \/ ((c_auto_reload c && c_fresh c = false) /\
+      exists ct, ob = Loaded ct g /\ loaded_before c ops (cache_key c name ns) ct).
+Proof. exact caching_transparent. Qed.
+Print Assumptions c14_caching_transparent.
+
+(** A served template is always bound to the caller's own globals. *)
+Theorem c14_callers_globals : forall c s name ns g a ct g',
+  fst (cached_load c s name ns g a) = Loaded ct g' -> g' = g.
+Proof. exact loaded_globals_are_callers. Qed.
+Print Assumptions c14_callers_globals.
+
+(** Namespace isolation: the entry cached under the key of (name, namespace)
+    was read from the source of (name, namespace), in every reachable state. *)
+Theorem c14_namespace_isolated : forall c ops name ns t,
+  wf_cfg c -> Forall (wf_op c) ops -> wf_call c ns ->
+  In (cache_key c name ns, t) (od (cache (final c (init c) ops))) ->
+  t_key t = source_key c name ns.
+Proof.
+  intros c ops name ns t Hc Hf Hw.
+  exact (cached_entry_source c _ name ns t Hc (final_inv c ops Hc Hf _ (init_inv c Hc)) Hw).
+Qed.
+Print Assumptions c14_namespace_isolated.
